@@ -32,6 +32,7 @@ import (
 	"github.com/zilliztech/milvus-cdc/server/msgpacker"
 	"github.com/zilliztech/milvus-cdc/server/store"
 
+	"verifharness/quiesce"
 	"verifharness/fakes/catalog"
 	"verifharness/fakes/etcdsrv"
 	"verifharness/fakes/milvus"
@@ -256,6 +257,7 @@ type worldOpt struct {
 }
 
 func newWorld(t fatalfer, o worldOpt) *world {
+	quiesce.SetBaseline() // goroutines left behind by earlier cases of this process are not part of this case
 	if o.targets == 0 {
 		o.targets = 1
 	}
